@@ -17,6 +17,8 @@ def _policy(spec, seed):
         return behave.RandomPolicy(seed, early=spec.get("early", 0.3))
     if kind == "fifo":
         return behave.FifoPolicy()
+    if kind == "timer":
+        return behave.TimerPolicy()
     if kind == "lifo":
         return behave.LifoQuiescentPolicy()
     if kind == "replay":
@@ -34,6 +36,9 @@ def _behaviour(spec, seed):
             kw[k] = tuple(kw[k])
     if kind == "random":
         return behave.RandomBehaviour(spec.get("seed", seed), **kw)
+    if kind == "rt":
+        kw["durations"] = tuple(kw.get("durations", (0,)))
+        return behave.RTBehaviour(spec.get("seed", seed), **kw)
     if kind == "faultplan":
         plan = kw.pop("plan")
         return behave.FaultPlanBehaviour(spec.get("seed", seed), plan, **kw)
